@@ -221,7 +221,8 @@ def ref_sky64(h, pts, distort=True):
 def forward_cases(draw):
     h = draw(headers())
     return {"header": h, "pts": draw(pixels(h, draw(st.sampled_from([1, 4, 12])), crpix_outside=True)),
-            "distort": draw(st.sampled_from([True, True, False]))}
+            "distort": draw(st.sampled_from([True, True, False])),
+            "pixtype": draw(st.sampled_from(["f8", "f8", "f8", "f4", ">f8", ">f4", "i4", "list"]))}
 
 
 def _check_sky(what, got_lon, got_lat, ref_lon, ref_lat, pts, tol=TOL_SKY):
@@ -245,11 +246,23 @@ def _check_sky(what, got_lon, got_lat, ref_lon, ref_lat, pts, tol=TOL_SKY):
 def check_forward(case, ctx):
     h, pts, distort = case["header"], case["pts"], case["distort"]
     w = make(h)
+    pixtype = case.get("pixtype", "f8")
+    if pixtype in ("f4", ">f4"):
+        pts = [[float(np.float32(p[0])), float(np.float32(p[1]))] for p in pts]      # exactly representable
+    elif pixtype == "i4":
+        pts = [[float(round(p[0])), float(round(p[1]))] for p in pts]
     rlon, rlat, _, _ = ref_sky64(h, pts, distort)
     x = np.array([p[0] for p in pts])
     y = np.array([p[1] for p in pts])
     kw = {} if distort else {"distort": False}
-    lon, lat = must(w.image2sky, x, y, **kw)
+    if pixtype == "list":
+        xin, yin = x.tolist(), y.tolist()
+    else:
+        xin, yin = x.astype(pixtype), y.astype(pixtype)
+    if pixtype == "list":
+        # lists are not arrays: the documented inputs are scalars or arrays; hand over arrays built from them
+        xin, yin = np.array(xin), np.array(yin)
+    lon, lat = must(w.image2sky, xin, yin, **kw)
     require(isinstance(lon, np.ndarray) and lon.shape == x.shape, "image2sky(array) returned %r", type(lon))
     _check_sky("image2sky(distort=%s)" % distort, lon, lat, rlon, rlat, pts)
     # scalar calls: scalars out, same values
@@ -273,6 +286,7 @@ def check_forward(case, ctx):
 def classify_forward(case):
     labs = classify_header(case["header"])
     labs.append("distort:%s" % case["distort"])
+    labs.append("pixels:" + case.get("pixtype", "f8"))
     return labs
 
 
@@ -515,10 +529,14 @@ def history_cases(draw):
     h = draw(headers())
     nops = draw(st.integers(2, 8))
     ops = []
+    # one history in three works on arrays of one fixed length throughout (a catalogue processed in equal
+    # blocks): buffers an object might keep between calls then have the same shape in every call
+    fixed = draw(st.sampled_from([None, None, 1, 2, 3]))
     for _ in range(nops):
         name = draw(st.sampled_from(OPS))
-        op = {"op": name, "pts": draw(pixels(h, draw(st.sampled_from([1, 1, 2, 3])))),
-              "scalar": draw(st.booleans()), "distort": draw(st.sampled_from([True, True, False]))}
+        op = {"op": name, "pts": draw(pixels(h, fixed or draw(st.sampled_from([1, 1, 2, 3])))),
+              "scalar": False if fixed else draw(st.booleans()),
+              "distort": draw(st.sampled_from([True, True, False]))}
         if name == "sky2image":
             op["find"] = draw(st.booleans())
             # the documented root-finding tolerance of one call must not leak into later calls
@@ -527,7 +545,7 @@ def history_cases(draw):
     return {"header": h, "ops": ops}
 
 
-def _apply(w, h, op):
+def _apply(w, h, op, kept=None):
     pts = op["pts"]
     x = np.array([p[0] for p in pts])
     y = np.array([p[1] for p in pts])
@@ -545,6 +563,9 @@ def _apply(w, h, op):
         out = [must(fn, float(u), float(v), **kw) for u, v in zip(a, b)]
         return [[float(t) for t in r] for r in out]
     out = must(fn, a.copy(), b.copy(), **kw)
+    if kept is not None:
+        # the caller keeps what he got: later calls on the object must not change it
+        kept.extend((t, np.array(t, copy=True)) for t in out if isinstance(t, np.ndarray))
     return [np.asarray(t, "f8").tolist() for t in out]
 
 
@@ -554,9 +575,13 @@ def check_history(case, ctx):
     w = make(h)
     with warnings.catch_warnings():
         warnings.simplefilter("ignore", RuntimeWarning)
+        kept = []
         for n, op in enumerate(case["ops"]):
-            got = _apply(w, h, op)
+            got = _apply(w, h, op, kept)
             exp = _apply(make(h), h, op)
+            for obj, val in kept:
+                require(np.array_equal(obj, val, equal_nan=True), "an array returned by an earlier call on the object was "
+                        "changed by call %d (%s): it held %r, now %r", n, op["op"], val.tolist()[:6], obj.tolist()[:6])
             require(got == exp or (np.asarray(got) == np.asarray(exp)).all(),
                     "call %d (%s %s) on an object that already served %d calls returns %r, a fresh object "
                     "returns %r", n, op["op"], {k: v for k, v in op.items() if k not in ("op", "pts")}, n, got,
@@ -595,6 +620,6 @@ SUBCHECKS = [
              journal=False),
     Subcheck("jacobian", jacobian_cases, check_jacobian, classify_jac, quick=900, thorough=20000,
              journal=False),
-    Subcheck("history", history_cases, check_history, classify_history, quick=600, thorough=15000,
+    Subcheck("history", history_cases, check_history, classify_history, quick=900, thorough=15000,
              journal=False),
 ]
